@@ -763,8 +763,23 @@ def run_eval_op(g, op):
         ctxs.append(lcache.disabled)
     if op.get("log_off"):
         ctxs.append(llogging.disabled)
+    if op.get("ctx_order") == "log_first":
+        ctxs.reverse()
     import contextlib
     with contextlib.ExitStack() as st:
+        if subst is not None and op.get("subst_outer"):
+            # the substituting handler is installed first (single-type form), the library's own
+            # contexts are entered inside it
+            target, value = subst
+            prev = lruntime.current_runtime().handlers.get(EvaluateRequest) or lruntime._DEFAULT_HANDLERS[EvaluateRequest]
+
+            def substitute(request, _prev=prev):
+                if request.evaluatable is target:
+                    return value
+                return _prev(request)
+
+            st.enter_context(lruntime.handle(EvaluateRequest, substitute))
+            subst = None
         for c in ctxs:
             st.enter_context(c())
         if not op.get("no_recording"):
